@@ -1,6 +1,7 @@
 (* C19 - NAT is flagged at the first hop that sees a rewritten datagram.
    Model: TV.Core.State.{nat_status_of, update_for_probe} (state.rs) and Core.Strategy.proto_sresp (strategy.rs:
    only IPv4/UDP/Dublin responses carry expected/actual checksums). *)
+From TV Require Packet.Checksum Net.RecvCommon Net.Recv4 Net.RfcPeer Proofs.RecvRoundtrip Proofs.NatLink.
 From TV Require Import Base.Result Core.Types Core.Flows Core.State Core.Strategy Proofs.StateProofs.
 
 (* per hop: Detected iff the quoted checksum differs from the previous responding hop's (first hop: from the
@@ -49,6 +50,30 @@ Theorem c19_single_nat : forall before after e0 a1, a1 <> e0 ->
     repeat NatNotDetected (length before) ++
     match after with [] => [] | _ :: r => NatDetected :: repeat NatNotDetected (length r) end.
 Proof. exact nat_single_rewrite. Qed.
+
+(* ---- the byte-level link (receive-path model Net/Recv4.v, peer specification Net/RfcPeer.v) ----
+   A Dublin/IPv4 probe as dispatched (configured source and destination, pattern payload of k octets, the UDP checksum
+   the dispatch computes) that crosses NO rewriting device and is quoted by a standards-conforming router - any
+   quotation length from IP header + 8 octets, TTL / TOS / header checksum rewritten, with or without extensions,
+   outer IPv4 options - is decoded into a response whose expected checksum (recomputed by calc_udp_checksum from the
+   quoted ports, length and the configured pattern) EQUALS the quoted one.  With c19_status / c19_no_nat: a path
+   without address or port rewriting never shows NAT. *)
+Theorem c19_unrewritten_probe_checksums_agree : forall c now me p tos ttl hck ipid sp dp k E,
+  RecvCommon.rc_proto c = Udp -> length (RecvCommon.rc_src c) = 4%nat -> length (RecvCommon.rc_dest c) = 4%nat ->
+  RecvRoundtrip.peer4_ok me p -> 0 <= k <= 996 ->
+  let payload := repeat (RecvCommon.rc_pattern c) (Z.to_nat k) in
+  let uck := Checksum.udp_ipv4_checksum (RfcPeer.udp_dgram sp dp 0 payload) (RecvCommon.rc_src c) (RecvCommon.rc_dest c) in
+  let dg := RfcPeer.udp4_probe (RecvCommon.rc_src c) (RecvCommon.rc_dest c) tos ttl hck ipid sp dp uck payload in
+  RecvCommon.zlen (RfcPeer.quote4 me p dg) <= 1024 ->
+  RecvRoundtrip.ext_result c (RfcPeer.q_ext p) (RecvCommon.ztake (RfcPeer.q_n p) (RfcPeer.transit4 (RfcPeer.q_transit p) dg)) = Ok E ->
+  Recv4.recv4 c now (RfcPeer.quote4 me p dg) =
+  Ok (Some (RecvRoundtrip.mk_err (RecvRoundtrip.is_du p) (RecvCommon.mk_resp_data now (RfcPeer.q_router p)
+              (PUdp ipid (RecvCommon.rc_dest c) sp dp (Some (RfcPeer.t_tos (RfcPeer.q_transit p))) uck uck k false))
+              (RecvRoundtrip.code_of p) E)).
+Proof. exact NatLink.unrewritten_probe_checksums_agree. Qed.
+
+Theorem c19_unrewritten_first_hop : forall ck, nat_status_of ck ck None = (NatNotDetected, ck).
+Proof. intros ck. rewrite nat_status_of_spec. unfold nat_reference. rewrite Z.eqb_refl. reflexivity. Qed.
 
 Example c19_example : nat_fold None [(7, 7); (7, 7); (7, 9); (7, 9)] = [NatNotDetected; NatNotDetected; NatDetected; NatNotDetected].
 Proof. reflexivity. Qed.
